@@ -1986,10 +1986,19 @@ fn gen_c09_case(r: &mut Rng, stats: &mut HashMap<String, usize>) -> (String, Vec
 /// C08: a script of register operations, single-threaded against k threads.
 fn gen_c08_case(r: &mut Rng, max_n: usize, big: bool, stats: &mut HashMap<String, usize>) -> (String, Vec<String>) {
     let avail = rayon::current_num_threads();
-    let n = if big && r.chance(1, 3) { r.range(10, 14) } else { r.range(0, max_n) };
+    // now and then: 8 qubits, a gate with several controls that are all at qubits 6 and 7 (control masks of 64 and more:
+    // whole blocks of the buffer share their control bits), on a state that has some but not all of the controls set
+    let high_ctrl = r.chance(1, 12);
+    let n = if high_ctrl { 8 } else if big && r.chance(1, 3) { r.range(10, 14) } else { r.range(0, max_n) };
     let k = r.range(2, avail.max(2));
     let mut script: Vec<String> = vec![format!("qreg {n} THR")];
     script.push(format!("setpsi {}", cvec(&rand_psi(r, n, false))));
+    if high_ctrl {
+        let t = r.kbits(0b0011_1111, 1).unwrap();
+        let g = *r.pick(&["x", "h", "z", "s"][..]);
+        script.push(format!("op {}", ops::prog_text(&vec![ops::Tok::G(g, t), ops::Tok::C(0b1100_0000)])));
+        script.push("apply".into());
+    }
     for _ in 0..r.range(1, 5) {
         match r.below(8) {
             0..=3 => {
